@@ -493,6 +493,9 @@ class Executor:
 
     def rvalue(self, f, s, env, pc, dst_ty=None):
         s = s.strip()
+        m = re.match(r"^(.*) as .* \((Transmute|PtrToPtr|PointerCoercion\(.*\))\)$", s)
+        if m and getattr(self, "opaque_fields", False):
+            return self.operand(f, m.group(1), env)
         m = re.match(r"^(.*) as (\w+) \(IntToInt\)$", s)
         if m:
             v = self.operand(f, m.group(1), env)
@@ -524,6 +527,9 @@ class Executor:
             # reference to a place: reborrow through an existing ref when the place starts with deref
             if projs and projs[0][0] == "deref":
                 r = env[base][0]
+                if r[0] == "opaque" and getattr(self, "opaque_fields", False) and len(projs) == 1:
+                    # a raw pointer obtained from an abstract value (Box internals): its pointee is that value
+                    return ("ref", [r])
                 if r[0] != "ref":
                     raise MirError("reborrow of non-ref")
                 return ("ref", r[1]) + tuple(r[2:]) + tuple(projs[1:])
